@@ -361,7 +361,10 @@ def same_hex(a, b):
     if len(a) != len(b):
         return False
     for x, y in zip(a, b):
-        if isinstance(x, bool) or isinstance(y, bool):
+        if isinstance(x, list) or isinstance(y, list):
+            if not (isinstance(x, list) and isinstance(y, list) and same_hex(x, y)):
+                return False
+        elif isinstance(x, bool) or isinstance(y, bool):
             if x != y:
                 return False
         else:
